@@ -791,7 +791,8 @@ func keys(m map[int64]string) []int64 {
 // The open-ended plan (C-single at k=3) comes last so that the time the
 // bounded ones leave unused rolls over to it.
 // Plans returns the exploration plans of C09.
-func Plans() []nrun.Plan { return plans }
+// The generated family CG comes first: it is bounded (k=0 in the quick tier).
+func Plans() []nrun.Plan { return append(GenPlans(), plans...) }
 
 var plans = []nrun.Plan{
 	{Scenario: scenario("C-cancel-queued", false, false, true), QuickBudget: 2, ThoroughBudget: 3, ThoroughFaultOnlyFrom: 3, Weight: 1},
